@@ -248,6 +248,18 @@ def slots(s, pre=()):
     return out
 
 
+def skip_embeds(s, pre=()):
+    """dotted paths of the embedded members tagged `map:"-"`"""
+    out = []
+    for m in s["members"]:
+        if m["k"] == "e" and not m["decl"].get("back"):
+            p = pre + (m["decl"]["name"],)
+            if m.get("tag") == "-":
+                out.append(".".join(p))
+            out += skip_embeds(m["decl"], p)
+    return out
+
+
 def side_struct(spec, side):
     """the struct of a side as the compiler sees it: the source struct starts with the embedded mapper type"""
     st = spec[side]
@@ -331,7 +343,7 @@ def render_struct(s, pkg):
         if m["k"] == "f" and m.get("join"):
             continue          # rendered with the member it is joined to
         if m["k"] == "e":
-            lines.append("\t%s%s" % ("*" if m["ptr"] else "", m["decl"]["name"]))
+            lines.append("\t%s%s%s" % ("*" if m["ptr"] else "", m["decl"]["name"], ' `map:"%s"`' % m["tag"] if m.get("tag") is not None else ""))
             continue
         dirs = [d for d in ("new", "get", "set") if m.get(d)]
         if dirs:
@@ -550,6 +562,7 @@ def case_sexp(cid, spec, masks=None, fmasks=None, prop="C05"):
          ["manual"] + ([k for k in ("read", "write") if (spec.get("manual") or {}).get(k)]) +
          [["w"] + [Q(n) for n in ((spec.get("manual") or {}).get("wfields", []) if (spec.get("manual") or {}).get("write") else [])],
           ["r"] + [Q(n) for n in ((spec.get("manual") or {}).get("rfields", []) if (spec.get("manual") or {}).get("read") else [])]],
+         ["skipembeds", ["src"] + [Q(x) for x in skip_embeds(spec["src"])], ["dest"] + [Q(x) for x in skip_embeds(spec["dest"])]],
          ["slots", ["src"] + [Q(x) for x in slots(side_struct(spec, "src"))], ["dest"] + [Q(x) for x in slots(spec["dest"])]],
          ["masks"] + [Q(m) for m in (masks or [])],
          ["fmasks"] + [Q(m) for m in (fmasks or [])]]
@@ -837,6 +850,8 @@ class MapGen:
                     spec["manual"]["wfields"] = r.sample(dn, r.randint(1, min(2, len(dn))))
                 if sn:
                     spec["manual"]["rfields"] = r.sample(sn, r.randint(1, min(2, len(sn))))
+        if r.random() < o.get("embed_tag", 0.06):
+            add_embed_tag(r, spec, o.get("embed_tag_side"), o.get("embed_tag_kind"), o.get("embed_tag_namesake", 0.6))
         if r.random() < o.get("diamond", 0.04):
             add_diamond(r, spec, o.get("diamond_side"))
         if r.random() < o.get("selfembed", 0.03):
@@ -869,6 +884,75 @@ def add_self_embed(rng, spec, side=None, variant=None):
         pos = [k for k in range(len(ms) + 1) if k == len(ms) or not ms[k].get("join")]
         ms.insert(rng.choice(pos), BACK(name))
         spec["selfembed"] = True
+    return spec
+
+
+def add_embed_tag(rng, spec, side=None, kind=None, namesake=0.6):
+    """a `map:` tag on an EMBEDDED member (value or pointer embed, top level or inside another embed): `-` or a name. With
+    probability `namesake` a field of the tagged struct gets a namesake at a GREATER depth through another embedded struct:
+    the tagged struct keeps hiding it by Go's selector rule, whatever the generator does with the tag (seeded change C09-9
+    leaves the tagged struct out and then maps the deeper field under the short selector)"""
+    sides = [side] if side in ("src", "dest") else rng.choice([["src"], ["dest"], ["src", "dest"]])
+    for sd in sides:
+        st = spec[sd]
+        cands = []          # (member, depth of its fields)
+
+        def walk(s_, d):
+            for m in s_["members"]:
+                if m["k"] == "e" and not m["decl"].get("back"):
+                    if m.get("tag") is None and m["decl"]["members"]:
+                        cands.append((m, d + 1))
+                    walk(m["decl"], d + 1)
+        walk(st, 0)
+        if not cands:
+            # no embed yet: give the side one
+            nm = "Secret" if sd == "src" else "SecretD"
+            ms = st["members"]
+            # a field that is not part of a multi-name declaration (`A, B int`): neither joined to its predecessor nor followed by a joined one
+            fs = [m for i_, m in enumerate(ms) if m["k"] == "f" and m["name"][:1].isupper() and m.get("tag") is None and not m.get("join") and
+                  not (i_ + 1 < len(ms) and ms[i_ + 1].get("join"))]
+            if not fs:
+                continue
+            f = rng.choice(fs)
+            ms.remove(f)
+            e = E(ST(nm, [f]), rng.random() < 0.6)
+            ms.insert(rng.choice([k_ for k_ in range(len(ms) + 1) if k_ == len(ms) or not ms[k_].get("join")]), e)
+            cands.append((e, 1))
+        m, fdepth = rng.choice(cands)
+        k = kind or rng.choice(["-", "-", "-", "name"])
+        m["tag"] = "-" if k == "-" else "Renamed"
+        spec["embed_tag"] = True
+        if rng.random() >= namesake:
+            continue
+        fs = [x for x in m["decl"]["members"] if x["k"] == "f" and x["name"][:1].isupper()]
+        if not fs:
+            continue
+        f = rng.choice(fs)
+        # a struct whose fields lie deeper than fdepth, reached through ANOTHER embed
+        deeper = []
+
+        def walk2(s_, d, inside_tagged):
+            for x in s_["members"]:
+                if x["k"] == "e" and not x["decl"].get("back"):
+                    it = inside_tagged or x is m
+                    if not it and d + 1 > fdepth:
+                        deeper.append(x["decl"])
+                    walk2(x["decl"], d + 1, it)
+        walk2(st, 0, False)
+        if not deeper:
+            used = {d_["name"] for d_ in embed_decls(st)}
+            chain = [n for n in (("Extra", "Wide", "Far") if sd == "src" else ("ExtraD", "WideD", "FarD")) if n not in used][:fdepth + 1]
+            if len(chain) < fdepth + 1:
+                continue
+            inner = ST(chain[-1], [])
+            cur = inner
+            for n in reversed(chain[:-1]):
+                cur = ST(n, [E(cur, rng.random() < 0.5)])
+            st["members"].append(E(cur, rng.random() < 0.5))
+            deeper.append(inner)
+        tgt = rng.choice(deeper)
+        if all(y["name"] != f["name"] for y in tgt["members"] if y["k"] == "f"):
+            tgt["members"].append(F(f["name"], f["type"]))
     return spec
 
 
@@ -1029,6 +1113,7 @@ WITNESSES = {
     "C05": lambda: [
         ("F_multiMatch", mk_spec([F("ID", INT)], [F("ID", INT), F("Id", INT)])),
         ("F_skipShadow", mk_spec([E(ST("Base", [F("Name", INT, "-"), E(ST("Inner", [F("Name", INT)]))]))], [F("Name", INT)])),
+        ("F_embedSkip", mk_spec([dict(E(ST("Secret", [F("Token", STR)]), True), tag="-"), F("Name", STR)], [F("Token", STR), F("Name", STR)], sname="Account")),
         # witnesses of repaired regions, kept as regression inputs (region WF now)
         ("fixed-namedScalarSub", mk_spec([F("K", SRC_KIND)], [F("K", DEST_KIND)])),
         ("fixed-tagKey", mk_spec([F("User_name", STR, "Title")], [F("Title", STR)])),
@@ -1355,6 +1440,8 @@ def count_features(spec, feats=None):
                         x["k"] == "e" and any(y["k"] == "e" and y["decl"]["name"] == m["decl"]["name"] for y in x["decl"]["members"])
                         for x in st["members"] if x is not m):
                     inc("%s-embedded-twice" % side)
+                if m["k"] == "e" and m.get("tag") is not None:
+                    inc("%s-embed-tagged-%s-%s" % (side, "skip" if m["tag"] == "-" else "name", "ptr" if m["ptr"] else "val"))
                 if m["k"] == "e" and m["decl"].get("back"):
                     inc("%s-cyclic-embed-d%d" % (side, d + 1))
                 elif m["k"] == "e":
